@@ -61,6 +61,11 @@ namespace nmtools::view::fun
     {
         using result_type = res_t;
 
+        static constexpr auto identity()
+        {
+            return static_cast<res_t>(1);
+        }
+
         template <typename T, typename U>
         constexpr auto operator()(const T& t, const U& u) const -> res_t
         {
